@@ -22,6 +22,7 @@ from nix_manipulator.expressions.trivia import (
     format_trivia,
     gap_between,
     layout_from_gap,
+    own_line_trivia,
 )
 
 
@@ -304,7 +305,9 @@ class Binding(TypedExpression):
         after_items = value_after + self.after
         if after_items and after_items[0] is linebreak:
             # Preserve an explicit linebreak marker even though it formats as "".
-            trailing = format_trivia(after_items[1:], indent=indent)
+            # (everything behind the marker stands on lines of its own, also a
+            # comment that followed the semicolon on its line: `v\n  # x\n  ; # y`)
+            trailing = format_trivia(own_line_trivia(after_items[1:]), indent=indent)
             if not trailing.startswith("\n"):
                 trailing = "\n" + trailing
             if trailing.endswith("\n"):
